@@ -113,7 +113,9 @@ class InvertedPendulum(AbstractMujocoEnv[Float[Array, "..."], Float[Array, "..."
         action: Float[Array, "..."],
         next_state: MujocoEnvState,
     ) -> dict:
-        return {}
+        return {
+            "reward_survive": self.is_healthy(next_state.sim_state).astype(float),
+        }
 
     def is_healthy(self, data: mjx.Data) -> Bool[Array, ""]:
         obs = jnp.concatenate((data.qpos.reshape(-1), data.qvel.reshape(-1)))
